@@ -35,6 +35,28 @@ def generate(rng, tier, shard, nshards):
             yield gops.event("normalize", dict(base, L=3), site="locally_normalize", feat=feat)
 
 
+def chart_events(rng, tier):
+    import lops
+    out = []
+    keys = ["S", "A", "B", "a", "b"]
+    for i in range(40 if tier == "quick" else 400):
+        srn = ["Rat", "Sat3", "Bool", "RatU"][i % 4]
+        ws = {"Rat": [[1, 2], [1, 4], [3, 4], [2, 1], [0, 1]], "RatU": [[1, 2], [1, 3], [2, 1], [0, 1]], "Sat3": [0, 1, 2, 3], "Bool": [0, 1]}[srn]
+        mk = lambda: [[k, rng.choice(ws)] for k in rng.sample(keys, rng.randint(0, 5))]
+        a, b = mk(), mk()
+        base = {"sr": srn, "a": a}
+        out.append(lops.event("chart", dict(base, fn="product", ks=[rng.choice(keys) for _ in range(rng.randint(0, 4))]), site="Chart.product", feat="chart"))
+        out.append(lops.event("chart", dict(base, fn="add", b=b), site="Chart.__add__", feat="chart"))
+        out.append(lops.event("chart", dict(base, fn="mul", b=b), site="Chart.__mul__", feat="chart"))
+        out.append(lops.event("chart", dict(base, fn="trim"), site="Chart.trim", feat="chart"))
+        out.append(lops.event("chart", dict(base, fn="filter", keep=rng.sample(keys, 2)), site="Chart.filter", feat="chart"))
+        out.append(lops.event("chart", dict(base, fn="project", map=[[k, rng.choice(["x", "y"])] for k in keys]), site="Chart.project", feat="chart"))
+        if srn == "Rat":
+            out.append(lops.event("chart", dict(base, fn="sum"), site="Chart.sum", feat="chart"))
+            out.append(lops.event("chart", dict(base, fn="normalize"), site="Chart.normalize", feat="chart"))
+    return out
+
+
 def selftests(events, rng):
     out = []
     cands = [e for e in events if "exc" not in e and e["op"] in ("normalize", "addeos") and e["out"]["rules"]
@@ -51,6 +73,12 @@ def selftests(events, rng):
 
 
 def run(report, tier, seed):
+    import random
+    from check import judge
+    ce = chart_events(random.Random(seed + 21), tier)
+    for e in ce:
+        report.case(e, trivial=())
+    judge(report, "TraceLinear", ce)           # Chart algebra (Chart.product is what locally_normalize relies on)
     standard_run(report, "C20", MODULE, tier, seed, selftests,
                  rule=("locally_normalize on exact-rational grammars with finitely many derivations (useless and "
                        "zero-total nonterminals included): per-head sums, total weight one, Weight'(x) * Z = Weight(x) "
